@@ -1481,6 +1481,22 @@ def fam_C09(rng, tier):
                 else:
                     s.feed(m.ack('pubrel', pid, [None, 0, 0x92, 0x92][dup], [(31, b'gone')] if dup == 3 else None))
             out.append(s.script())
+    # the same with the largest packet identifier
+    big = [('P', 65535, 0), ('P', 65535, 1), ('R', 65535, 0), ('P', 65534, 0)]
+    for k in range(1, 5):
+        for seq in itertools.product(big, repeat=k):
+            if seq[0][0] != 'P':
+                continue
+            s = Sess(f'c09-maxid-{i}')
+            i += 1
+            s.connect()
+            op, sid = s.subscribed_stream()
+            for n, (t, pid, dup) in enumerate(seq):
+                if t == 'P':
+                    s.feed(m.publish(b'a', bytes([65 + n]), 2, pid, dup, 0, [(11, sid)]))
+                else:
+                    s.feed(m.ack('pubrel', pid))
+            out.append(s.script())
     out += fam_walk(rng, tier, 'c09-walk', 30 if tier == 'quick' else 1000, 60,
                     weights=dict(pub0=0, pub1=1, pub2=0, sub=2, unsub=0, ping=0, ack=3, inbound=10, pubrel=6, stream=3),
                     subid_modes=['reg'])
